@@ -1,6 +1,10 @@
 import RsslVerif.Lemmas.MetaText
 import RsslVerif.Lemmas.Meta
 import RsslVerif.Lemmas.MetaReach
+import RsslVerif.Lemmas.MetaReachTerm
+import RsslVerif.Lemmas.MetaFront
+import RsslVerif.Lemmas.MetaTotal
+import RsslVerif.Thm.C15
 /-!
 # C05 — reflection metadata agrees with the emitted source
 
@@ -17,7 +21,10 @@ open RsslVerif.Lemmas.Slots (ParamsOk paramsFor_ok)
 
 /-- Every syntactic fact the model relies on holds in the current source: how the three
     `DescriptorBinding` literals are filled, the shape of msl `generate_pipeline`, of the HLSL annotation
-    generators, of the formatter's register / attribute printers and of `build_pipeline`'s stage records. -/
+    generators, of the formatter's register / attribute printers, of `build_pipeline`'s stage records, of
+    `parse_pipeline` / `add_stage` (property order, order of the checks, last numthreads attribute wins, entry lookup
+    among all functions), of the places names are read from (name map vs cbuffer registry, Metal's cbuffer
+    globals) and of the thread group size attributes both exporters print. -/
 theorem source_shape_as_modelled :
     hlslCbufferEntry = ⟨true, true, true, true, false, true, false, true, true, false⟩ ∧
     hlslGlobalEntry = ⟨true, true, true, true, true, false, true, false, false, true⟩ ∧
@@ -29,7 +36,8 @@ theorem source_shape_as_modelled :
     hlslAnnotFacts = ⟨true, true, true, true, true, true, true, true, true, true, true, true, true, true, true,
                       true, true, true, true⟩ ∧
     attributeShapeAsModelled = true ∧ stagesCopyKindAndThreadGroupSize = true ∧
-    metadataIsExportersDescription = true ∧
+    metadataIsExportersDescription = true ∧ entryLookupIsByNameAmongAllFunctions = true ∧
+    frontFacts = ⟨true, true, true, true, true, true, true, true, true, true, true, true, true, true, true, true⟩ ∧
     (regOpen, regSep, regSpace, regClose) = (" : register(", ", ", "space", ")") := by decide
 
 /-- The two exporters use the same ObjectType ↦ DescriptorType table. -/
@@ -403,6 +411,105 @@ theorem annotations_match_metadata_hlsl {p : Params} {dflt : Nat} :
                     · exact hprint
                     · exact hrest.2 x hx
 
+open RsslVerif.Lemmas.MetaTotal RsslVerif.Lemmas.Slots in
+/-- **The HLSL metadata builder is total on the allocator's output.**  For every module whose object-typed globals
+    use kinds that have a descriptor type, every default group and every parameter set `compile()` can pass:
+    once `assign_api_bindings` returned, `analyse_bindings` + `generate_inline_constant_buffers` return a
+    `PipelineDescription` — `bind_groups[buffer.set]` is in range and none of the three asserts
+    (`offset + 8 <= size`, `size == found_size`, `inline_constants == None`) can fire, because per bind group the
+    inline entries account for exactly the bytes the allocator handed out. -/
+theorem hlsl_metadata_total {p : Params} (hp : ParamsOk p) {dflt : Nat} {ds : List MDecl} {res : Result}
+    (h : assign p dflt (ds.map MDecl.toSlot) = .ok res)
+    (hdesc : ∀ n s ss k arr bl st, MDecl.global n s ss (some k) arr bl st ∈ ds → (hlslDescType k).isSome) :
+    ∃ groups, hlslMeta p dflt ds = .ok groups := by
+  have hpw := (RsslVerif.Thm.C06.inline_buffers_correct hp h).2.2
+  have hpos := (RsslVerif.Thm.C06.inline_buffers_correct hp h).1
+  have hev : ∀ d ∈ ds, ∀ ob, ∃ o, hlslEvent d ob = .ok o := by
+    intro d hd ob
+    cases d with
+    | other => exact ⟨none, rfl⟩
+    | cbuffer n s => cases ob <;> exact ⟨_, rfl⟩
+    | global n s ss k arr bl st =>
+      have hdo : ∃ dt, descOf hlslDescType hlslNonObjectDescType k = .ok dt := by
+        cases k with
+        | none => exact ⟨_, rfl⟩
+        | some k =>
+          have := hdesc n s ss k arr bl st hd
+          cases hk : hlslDescType k with
+          | none => simp [hk] at this
+          | some dt => exact ⟨dt, by simp [descOf, hk]⟩
+      obtain ⟨dt, hdt⟩ := hdo
+      cases ob with
+      | none => exact ⟨none, by simp [hlslEvent, hdt]⟩
+      | some b =>
+        exact ⟨some (b.set, { name := n, loc := b.loc, descType := dt, count := countOf arr, bindless := bl,
+                              used := true, staticSampler := ss }), by simp [hlslEvent, hdt]⟩
+  unfold hlslMeta
+  rw [h]
+  simp only
+  obtain ⟨evs, hevs⟩ := events_total ds hev res.bindings 0
+  rw [hevs]
+  simp only
+  unfold assign at h
+  split at h
+  · cases h
+  · rename_i st bs hrun
+    simp only [Except.ok.injEq] at h
+    subst h
+    have hinv := run_events_inv hp ds State.init st bs 0 evs [] hrun hevs inlInv_nil
+    apply setInlines_total _ _ st.inline.get hinv hpw
+    · intro b hb
+      have hb' := hb
+      simp only [inlineBuffers] at hb'
+      rw [mem_sortBufs] at hb'
+      simp only [List.mem_map] at hb'
+      obtain ⟨g, _, rfl⟩ := hb'
+      exact ⟨rfl, (hpos _ hb).2.2⟩
+    · intro b _ grp hg
+      exact registerAll_noIC evs [] (by intro g hg; cases hg) grp (List.mem_of_getElem? hg)
+
+open RsslVerif.Lemmas.MetaTotal RsslVerif.Lemmas.Slots in
+/-- **Metal: metadata, or the clean refusal.**  Without buffer addresses (Metal's parameter set), for every module
+    whose object-typed globals use kinds that have a descriptor type: once the allocator returned, the Metal
+    metadata builder either returns a `PipelineDescription` or refuses the file with `UnsupportedBindGroupIndex`
+    (some binding sits in a group without argument buffer struct) — `ARGUMENT_BUFFER_NAMES[i]` is never indexed
+    out of range and the `panic!()` of the sort comparator (inline constant in an argument buffer) cannot fire. -/
+theorem msl_metadata_total_or_refused {p : Params} (hsba : p.supportBufferAddress = false) {dflt : Nat}
+    {usedAt : Nat → Bool} {ds : List MDecl} {res : Result}
+    (h : assign p dflt (ds.map MDecl.toSlot) = .ok res)
+    (hdesc : ∀ n s ss k arr bl st, MDecl.global n s ss (some k) arr bl st ∈ ds → (mslDescType k).isSome) :
+    (∃ groups, mslMeta p dflt usedAt ds = .ok groups) ∨
+    mslMeta p dflt usedAt ds = .error "UnsupportedBindGroupIndex" := by
+  have hp : ParamsOk p := by intro hb; rw [hsba] at hb; cases hb
+  unfold mslMeta
+  rw [h]
+  simp only
+  rcases events_msl_cases usedAt (by decide) ds hdesc res.bindings 0 with ⟨evs, hev, hlt⟩ | herr
+  · left
+    rw [hev]
+    simp only
+    have hlen : (registerAll evs []).length ≤ argumentBufferNames.length :=
+      length_registerAll_le evs [] hlt (by simp)
+    rw [if_neg (by omega)]
+    have hag := RsslVerif.Thm.C06.binding_complete hp h
+    have hgood := assign_good h
+    have hidx := all_index hsba _ _ hag hgood
+    refine ⟨registerAll evs [], ?_⟩
+    apply sortGroups_id
+    intro grp hgrp
+    obtain ⟨k, hk⟩ := List.getElem?_of_mem hgrp
+    have hb : bindingsAt (registerAll evs []) k = grp.bindings := by simp [bindingsAt, hk]
+    rw [bindingsAt_registerAll, bindingsAt_nil, List.nil_append] at hb
+    have hl := events_locs (fun i => mslEvent_ok (usedAt i)) k ds res.bindings 0 evs hag hev
+    have hr := indexRanges_locs (p := p) (dflt := dflt) k _ _ hag hidx
+    have htile := RsslVerif.Thm.C06.index_ranges_tile hp h k
+    apply sortGroup_id (ks := (RsslVerif.Spec.Slots.indexRanges p k (ds.map MDecl.toSlot) res.bindings).map (·.1))
+    · rw [← hb, List.map_map, List.map_map]
+      exact hl.trans hr.symm
+    · exact (List.pairwise_map).2 (tiles_sorted htile).2
+  · right
+    rw [herr]
+
 /-! ## descriptor_kind_count -/
 
 /-- Descriptor type and count of an entry depend only on the declared (peeled) kind and the array layer:
@@ -552,11 +659,10 @@ theorem excluded_declarations (p : Params) (n : String) (s : Option Nat) (ss bl 
 /-! ## used_sound_complete -/
 
 open RsslVerif.Model.MetaReach RsslVerif.Lemmas.MetaReach in
-/-- Metal: when the usage fixed point loop terminates (fuel not exhausted), a binding is marked used iff
-    some stage entry point reaches the global in the use graph (calls, bodies, default arguments, and the
-    initialisers of the globals on the way).  `_partial`: termination of the loop itself (fuel sufficiency)
-    is not proved here; every other step is. -/
-theorem used_sound_complete_partial {direct : Sym → List Sym} {keys : List Sym} {entries : List Nat} {fuel : Nat}
+/-- Metal: whenever the usage fixed point loop returns (with whatever fuel), a binding is marked used iff some
+    stage entry point reaches the global in the use graph (calls, bodies, default arguments, and the
+    initialisers of the globals on the way).  `usage_loop_terminates` shows that it always returns. -/
+theorem used_iff_reachable_of_result {direct : Sym → List Sym} {keys : List Sym} {entries : List Nat} {fuel : Nat}
     {req : Sym → List Sym} (hk : ∀ k ∈ keys, ∀ s ∈ direct k, s ∈ keys)
     (he : ∀ e ∈ entries, Sym.fn e ∈ keys) (h : recurse fuel keys direct = some req) (g : Nat) :
     usedBy req entries g = true ↔ ∃ e ∈ entries, Reach direct (.fn e) (.glob g) := by
@@ -565,6 +671,38 @@ theorem used_sound_complete_partial {direct : Sym → List Sym} {keys : List Sym
   constructor
   · rintro ⟨e, hem, hm⟩; exact ⟨e, hem, (hr _ (he e hem) _).1 hm⟩
   · rintro ⟨e, hem, hm⟩; exact ⟨e, hem, (hr _ (he e hem) _).2 hm⟩
+
+open RsslVerif.Model.MetaReach in
+/-- `GlobalUsageAnalysis::recurse` terminates: over `n` symbols (functions, globals, cbuffers — whatever key
+    order the hash map yields) the loop makes at most `n * n` modifying passes, because every such pass adds a
+    (symbol, required symbol) pair and there are at most `n * n` of them. -/
+theorem usage_loop_terminates {direct : Sym → List Sym} {keys : List Sym}
+    (hk : ∀ k ∈ keys, ∀ s ∈ direct k, s ∈ keys) :
+    ∃ req, recurse (keys.length * keys.length + 1) keys direct = some req :=
+  RsslVerif.Lemmas.MetaReachTerm.recurse_terminates hk
+
+open RsslVerif.Model.MetaReach in
+/-- **used_sound_complete** (Metal, full): for every use graph — any functions with bodies and default
+    arguments, any globals with initialisers that mention other globals or call functions, any key order — the
+    usage analysis returns, and a binding is reported used iff some stage entry point of the pipeline reaches
+    its global.  (A resource array or a bindless array is one global: mentioning any element mentions it.) -/
+theorem used_sound_complete {direct : Sym → List Sym} {keys : List Sym} {entries : List Nat}
+    (hk : ∀ k ∈ keys, ∀ s ∈ direct k, s ∈ keys) (he : ∀ e ∈ entries, Sym.fn e ∈ keys) :
+    ∃ req, recurse (keys.length * keys.length + 1) keys direct = some req ∧
+      ∀ g, usedBy req entries g = true ↔ ∃ e ∈ entries, Reach direct (.fn e) (.glob g) := by
+  obtain ⟨req, h⟩ := usage_loop_terminates hk
+  exact ⟨req, h, used_iff_reachable_of_result hk he h⟩
+
+/-- a use graph with a global (4) whose initialiser mentions another global (7), itself reached through a call -/
+def exampleDirect : RsslVerif.Model.MetaReach.Sym → List RsslVerif.Model.MetaReach.Sym
+  | .fn 0 => [.fn 1]
+  | .fn 1 => [.glob 4]
+  | .glob 4 => [.glob 7]
+  | _ => []
+
+example : Reach exampleDirect (.fn 0) (.glob 7) :=
+  Reach.step (m := .fn 1) (Reach.base (by decide))
+    (Reach.step (m := .glob 4) (Reach.base (by decide)) (Reach.base (by decide)))
 
 /-- the `is_used` flag of an entry: always true on HLSL (so a reachable binding is never reported unused),
     the membership test on Metal -/
@@ -608,13 +746,17 @@ theorem used_flag {u : Bool} {d : MDecl} {ob : Option Binding} {g : Nat} {e : En
 
 /-! ## entry_named_and_defined -/
 
-/-- Each reported stage names the function the emitted source defines for it, with the reported thread
-    group size — on every target, whatever the name generator did to the entry function's name: HLSL reports
-    the exporter's generated name (since fix "report the emitted name of HLSL entry points"), Metal the fixed
-    name of its generated entry function (the two name tables agree). -/
+/-- Each reported stage names the function the emitted source defines for it, and the reported thread group
+    size is the value of the **last** thread group size attribute that function is emitted with (`none` when it has
+    none) — on every target and for every stage kind, whatever the name generator did to the entry function's name:
+    HLSL reports the exporter's generated name (since fix "report the emitted name of HLSL entry points"), Metal the
+    fixed name of its generated entry function (the two name tables agree).  When the function carries exactly one
+    attribute, reported = emitted. -/
 theorem entry_named_and_defined (msl : Bool) (funcs : List FuncDef) (s : StageDef) (r : StageOut)
     (h : reportStage msl funcs s = some r) :
-    emittedStage msl funcs s = some (r.entryPoint, r.threadGroupSize) ∧ r.stage = s.stage := by
+    ∃ attrs, emittedStage msl funcs s = some (r.entryPoint, attrs) ∧ r.stage = s.stage ∧
+      r.threadGroupSize = lastNumThreads attrs ∧ (∀ t, attrs = [t] → r.threadGroupSize = some t) ∧
+      (attrs = [] → r.threadGroupSize = none) := by
   unfold reportStage at h
   unfold emittedStage
   cases hf : funcs[s.entry]? with
@@ -622,13 +764,194 @@ theorem entry_named_and_defined (msl : Bool) (funcs : List FuncDef) (s : StageDe
   | some f =>
     simp only [hf, Option.some.injEq] at h ⊢
     subst h
-    cases msl with
-    | true => simp [msl_entry_names_agree]
-    | false => simp
+    refine ⟨f.attrs, ?_, rfl, rfl, ?_, ?_⟩
+    · cases msl with
+      | true => simp [msl_entry_names_agree]
+      | false => simp
+    · intro t ht; simp [ht, lastNumThreads]
+    · intro ht; simp [ht, lastNumThreads]
+
+/-- The front end accepts several `[numthreads]` attributes on one function; the stage then reports the last one
+    while the emitted function carries all of them: with two different attributes the emitted source has no
+    single thread group size the report could agree with (negation witness for "reported = emitted" beyond
+    single-attribute functions; replayed on the real compiler by corpus requests with `nt3`). -/
+theorem thread_group_size_ambiguous_witness :
+    ∃ (funcs : List FuncDef) (s : StageDef) (r : StageOut) (attrs : List (Nat × Nat × Nat)) (t : Nat × Nat × Nat),
+      reportStage false funcs s = some r ∧ emittedStage false funcs s = some (r.entryPoint, attrs) ∧
+      t ∈ attrs ∧ r.threadGroupSize ≠ some t :=
+  ⟨[{ name := "cs_0", emitted := "cs_0", attrs := [(9, 4, 1), (8, 4, 1)] }], { stage := .Compute, entry := 0 },
+   ⟨.Compute, "cs_0", some (8, 4, 1)⟩, [(9, 4, 1), (8, 4, 1)], (9, 4, 1), rfl, rfl, by simp, by simp⟩
 
 /-- the renamed entry point of the former defect: reported and emitted names are both `float16_t_0` -/
-example : reportStage false [{ name := "float16_t", emitted := "float16_t_0", numthreads := some (8, 4, 1) }]
+example : reportStage false [{ name := "float16_t", emitted := "float16_t_0", attrs := [(8, 4, 1)] }]
       { stage := .Compute, entry := 0 } = some ⟨.Compute, "float16_t_0", some (8, 4, 1)⟩ := rfl
+
+/-! ## where the stage records come from (`parse_pipeline` / `add_stage`) -/
+
+open RsslVerif.Model.MetaFront RsslVerif.Lemmas.MetaFront in
+/-- A `Pipeline` block the front end accepts yields one stage record per stage property, in the order the
+    properties are written (not in a canonical stage order); each record points at the one function of the module
+    that carries the given name — a function with a body that is no template — and stores the last
+    `numthreads` attribute of exactly that function, for every stage kind alike. -/
+theorem stage_records_follow_properties {funcs : List FnSrc} {earlier : List String} {p : PipeSrc} {d : PipeDef}
+    (h : parsePipeline funcs earlier p = .ok d) :
+    d.stages.map (·.stage) = p.stages.map (·.1) ∧ d.stages ≠ [] ∧ d.dflt = p.dflt.getD 0 ∧
+    ∀ s ∈ d.stages, ∃ q ∈ p.stages, s.stage = q.1 ∧ fnIndices funcs q.2 0 = [s.entry] ∧
+      ∃ f, funcs[s.entry]? = some f ∧ f.name = q.2 ∧ f.hasBody = true ∧ f.isTemplate = false ∧
+        s.threadGroupSize = lastNumThreads f.attrs := by
+  obtain ⟨_, _, hd, hmap, hne, hall, _⟩ := parsePipeline_ok h
+  refine ⟨hmap, hne, hd, ?_⟩
+  intro s hs
+  obtain ⟨q, hq, hadd⟩ := hall s hs
+  obtain ⟨h1, h2, f, hf, hn, ht, hb, htg⟩ := addStage_ok hadd
+  exact ⟨q, hq, h1, h2, f, hf, hn, hb, ht, htg⟩
+
+open RsslVerif.Model.MetaFront RsslVerif.Lemmas.MetaFront in
+/-- `build_pipeline` copies `stage.thread_group_size` of the record; that is the value `reportStage` computes
+    from the attributes the entry function is emitted with, whenever the emitted function table carries the same
+    attributes as the front end's — so for every stage kind: reported size = last emitted attribute. -/
+theorem reported_size_is_the_typers_record {funcs : List FnSrc} {earlier : List String} {p : PipeSrc} {d : PipeDef}
+    (h : parsePipeline funcs earlier p = .ok d) {fdefs : List FuncDef} (msl : Bool)
+    (hsame : ∀ (i : Nat) (f : FnSrc), funcs[i]? = some f → ∃ g : FuncDef, fdefs[i]? = some g ∧ g.attrs = f.attrs) :
+    ∀ s ∈ d.stages, ∃ r, reportStage msl fdefs { stage := s.stage, entry := s.entry } = some r ∧
+      r.stage = s.stage ∧ r.threadGroupSize = s.threadGroupSize := by
+  intro s hs
+  obtain ⟨_, _, _, hall⟩ := stage_records_follow_properties h
+  obtain ⟨_, _, _, _, f, hf, _, _, _, htg⟩ := hall s hs
+  obtain ⟨g, hg, hga⟩ := hsame _ f hf
+  refine ⟨{ stage := s.stage, entryPoint := if msl then mslEntryName s.stage else g.emitted,
+            threadGroupSize := lastNumThreads g.attrs }, by simp [reportStage, hg], rfl, ?_⟩
+  simp [htg, hga]
+
+open RsslVerif.Model.MetaFront RsslVerif.Lemmas.MetaFront in
+/-- the pipelines of an accepted file have pairwise different names: selecting by name is unambiguous -/
+theorem pipeline_names_distinct {funcs : List FnSrc} {ps : List PipeSrc} {ds : List PipeDef}
+    (h : parsePipelines funcs [] ps = .ok ds) :
+    ds.map (·.name) = ps.map (·.name) ∧ (ds.map (·.name)).Pairwise (· ≠ ·) := by
+  rcases parsePipelines_names h with ⟨h1, h2⟩ | h3
+  · exact ⟨h1, by simpa [h1] using h2⟩
+  · exact absurd List.Pairwise.nil h3
+
+/-! ## the names that are reported (discharging `NameKept`) -/
+
+open RsslVerif.Model.MetaFront RsslVerif.Lemmas.MetaFront RsslVerif.Model in
+/-- **Arbitrary names.** Whatever the source names are — reserved in the target language, overloaded, equal to
+    another symbol's generated name — two different symbols (functions, globals, structs, namespaces) that the
+    name map places in the same scope never receive the same name.  Since the HLSL stage record and every
+    binding name are read from the same map the definitions are printed from, a reported entry point name denotes
+    exactly one emitted function of its scope and a reported binding name exactly one emitted global of its
+    scope. -/
+theorem reported_name_denotes_one_symbol {reserved : List String} {src : NameSrc} {names : List Names.Named}
+    (h : Names.build reserved src.input = .ok names)
+    {k₁ k₂ : Names.Kind} {i j : Nat} {n₁ n₂ : String}
+    (h₁ : leaf names k₁ i = .ok n₁) (h₂ : leaf names k₂ j = .ok n₂)
+    (hk₁ : k₁ ≠ .localVar) (hk₂ : k₂ ≠ .localVar) (hne : (k₁, i) ≠ (k₂, j))
+    (hscope : (Names.lookup names ⟨k₁, i⟩).map (·.scope) = (Names.lookup names ⟨k₂, j⟩).map (·.scope)) :
+    n₁ ≠ n₂ := by
+  obtain ⟨a, ha, rfl⟩ := leaf_ok h₁
+  obtain ⟨b, hb, rfl⟩ := leaf_ok h₂
+  obtain ⟨ham, has⟩ := lookup_mem ha
+  obtain ⟨hbm, hbs⟩ := lookup_mem hb
+  apply RsslVerif.Thm.C15.injective_per_scope h a ham b hbm
+  · rw [has]; exact hk₁
+  · rw [hbs]; exact hk₂
+  · simpa [ha, hb] using hscope
+  · rw [has, hbs]; intro e; apply hne; cases e; rfl
+
+open RsslVerif.Model.MetaFront RsslVerif.Lemmas.MetaFront RsslVerif.Model in
+/-- `entry_named_and_defined` for arbitrary names (HLSL): when the emitted function table takes its names from
+    the name map — as the exporter does for the definitions it prints and for `entry_point_names` alike — the
+    reported entry point is the emitted name of the stage's entry function and **no other** function the map
+    places in the same scope is emitted under that name, whether the source name was reserved, overloaded or
+    equal to another function's generated name. -/
+theorem hlsl_entry_point_unambiguous {reserved : List String} {src : NameSrc} {names : List Names.Named}
+    (h : Names.build reserved src.input = .ok names) {fdefs : List FuncDef}
+    (hf : ∀ (i : Nat) (f : FuncDef), fdefs[i]? = some f → leaf names .func i = .ok f.emitted)
+    {s : StageDef} {r : StageOut} (hr : reportStage false fdefs s = some r) :
+    (∃ f, fdefs[s.entry]? = some f ∧ r.entryPoint = f.emitted) ∧
+    ∀ (j : Nat) (g : FuncDef), fdefs[j]? = some g → j ≠ s.entry →
+      (Names.lookup names ⟨.func, j⟩).map (·.scope) = (Names.lookup names ⟨.func, s.entry⟩).map (·.scope) →
+      g.emitted ≠ r.entryPoint := by
+  unfold reportStage at hr
+  cases hfe : fdefs[s.entry]? with
+  | none => simp [hfe] at hr
+  | some f =>
+    simp only [hfe, Option.some.injEq] at hr
+    subst hr
+    refine ⟨⟨f, rfl, by simp⟩, ?_⟩
+    intro j g hg hj hscope
+    simp only [Bool.false_eq_true, if_false]
+    exact reported_name_denotes_one_symbol h (hf j g hg) (hf s.entry f hfe) (by decide) (by decide)
+      (by intro e; apply hj; cases e; rfl) hscope
+
+open RsslVerif.Model.MetaFront RsslVerif.Lemmas.MetaFront RsslVerif.Model in
+/-- no reported name is a reserved word of the target language -/
+theorem reported_name_not_reserved {reserved : List String} {src : NameSrc} {names : List Names.Named}
+    (h : Names.build reserved src.input = .ok names) {k : Names.Kind} {i : Nat} {n : String}
+    (hl : leaf names k i = .ok n) : n ∉ reserved := by
+  obtain ⟨a, ha, rfl⟩ := leaf_ok hl
+  exact RsslVerif.Thm.C15.never_reserved h a (lookup_mem ha).1
+
+open RsslVerif.Model.MetaFront RsslVerif.Lemmas.MetaFront RsslVerif.Model in
+/-- `NameKept` as a theorem: a function (or global) whose source name no other symbol of its scope carries and
+    that is not reserved is printed and reported under exactly that name, so for such entry points the reported
+    name is the name written in the `Pipeline` block. -/
+theorem name_kept_when_unique_and_free {reserved : List String} {src : NameSrc} {names : List Names.Named}
+    (h : Names.build reserved src.input = .ok names) {sc : Option Nat} (hsc : sc ∈ Names.scopeIds src.input)
+    {n : String} {sym : Names.Sym}
+    (hmem : (n, sym) ∈ Names.scopeSyms src.input sc)
+    (huniq : ((Names.scopeSyms src.input sc).filter (fun p => p.1 == n)).map (·.2) = [sym])
+    (hres : n ∉ reserved) : (⟨sym, sc, n⟩ : Names.Named) ∈ names :=
+  RsslVerif.Thm.C15.verbatim h hsc hmem huniq hres
+
+/-- HLSL prints and reports a cbuffer block under its *source* name (`get_constant_buffer_name` reads the
+    registry, not the name map).  Negation witness of "every reported name denotes one declaration" on the current
+    tables: `Texture2D<float4> float16_t; cbuffer float16_t_0 { .. }` — the global's name is reserved in HLSL and
+    becomes `float16_t_0`, the cbuffer keeps `float16_t_0`, and the metadata holds two entries of that name
+    (replayed on the real compiler by the corpus). -/
+theorem hlsl_cbuffer_bypasses_name_map_witness :
+    (RsslVerif.Model.Names.build hlslReserved
+        (RsslVerif.Model.MetaFront.NameSrc.input { nss := [], structs := [], globals := [(none, "float16_t")], funcs := [] })).toOption.bind
+      (fun names => (RsslVerif.Model.MetaFront.leaf names .global 0).toOption) = some "float16_t_0" ∧
+    (hlslMeta (paramsFor .HlslForDirectX false) 0
+        [.global "float16_t_0" none false (some .Texture2D) .no false .extern, .cbuffer "float16_t_0" none]).toOption.map
+      (·.map fun g => g.bindings.map (·.name)) = some [["float16_t_0", "float16_t_0"]] := by
+  constructor
+  · decide +kernel
+  · decide +kernel
+
+/-- Bindings are reported under their leaf name.  Negation witness: `Texture2D<float4> g_t;
+    namespace NS1 { Texture2D<float4> g_t; }` — the two globals live in different scopes, both keep `g_t`, and
+    the metadata (and on Metal the argument buffer) holds two entries of that name. -/
+theorem same_leaf_name_in_two_namespaces_witness :
+    (RsslVerif.Model.Names.build mslReserved
+        (RsslVerif.Model.MetaFront.NameSrc.input
+          { nss := [(none, "NS1")], structs := [], globals := [(none, "g_t"), (some 0, "g_t")], funcs := [] })).toOption.map
+      (fun names => ((RsslVerif.Model.MetaFront.leaf names .global 0).toOption,
+                     (RsslVerif.Model.MetaFront.leaf names .global 1).toOption)) =
+      some (some "g_t", some "g_t") := by
+  decide +kernel
+
+/-! Non-vacuity: a block with reversed stage properties is accepted and recorded in property order; overloads
+    `a`, `a` next to an entry point `a_0` (the former defect) get three different names (the entry point keeps `a_0`:
+    names that can be kept are claimed first); a compute stage next to
+    another stage and a second pipeline of the same name are refused. -/
+open RsslVerif.Model.MetaFront in
+example : (parsePipeline [⟨"h", [], true, false⟩, ⟨"vs", [], true, false⟩, ⟨"ps", [(4, 2, 1)], true, false⟩] ["P0"]
+      ⟨"P1", [(.Pixel, "ps"), (.Vertex, "vs")], some 2, true⟩).toOption =
+    some ⟨"P1", 2, [⟨.Pixel, 2, some (4, 2, 1)⟩, ⟨.Vertex, 1, none⟩], true⟩ := by decide
+
+open RsslVerif.Model.MetaFront in
+example : (parsePipeline [⟨"cs", [(8, 4, 1)], true, false⟩, ⟨"ps", [], true, false⟩] []
+      ⟨"P0", [(.Compute, "cs"), (.Pixel, "ps")], none, false⟩).toOption = none ∧
+    (parsePipeline [⟨"cs", [(8, 4, 1)], true, false⟩] ["P0"] ⟨"P0", [(.Compute, "cs")], none, false⟩).toOption = none ∧
+    (parsePipeline [⟨"cs", [(8, 4, 1)], true, false⟩, ⟨"cs", [], true, false⟩] [] ⟨"P0", [(.Compute, "cs")], none, false⟩).toOption = none := by
+  decide
+
+example : (RsslVerif.Model.Names.build hlslReserved
+      (RsslVerif.Model.MetaFront.NameSrc.input { nss := [], structs := [], globals := [], funcs := [(none, "a"), (none, "a"), (none, "a_0")] })).toOption.map
+      (fun names => [0, 1, 2].map fun i => (RsslVerif.Model.MetaFront.leaf names .func i).toOption) =
+    some [some "a_1", some "a_2", some "a_0"] := by decide +kernel
 
 /-! Non-vacuity of the hypotheses above. -/
 example : hlslAnnot (paramsFor .HlslForVulkan true) (.global "g" (some 1) false (some .Texture2D) (.sized 3) false .extern)
